@@ -48,6 +48,7 @@ class Frag:
     poison: bool = False        # 1/0, unbound variable, counting call
     cse_prefixes: tuple = (None, "u", "tmp")
     tuple_index: bool = True
+    logical_bool_only: bool = False  # and/or/not operands always truth-valued
     exponents: tuple = (0, 1, 2, 3, 4)
     shifts: tuple = (0, 1, 2, 3, 8)
 
@@ -142,7 +143,9 @@ def expr(draw, kind="NUM", depth=4, frag=EVALUABLE):
             if n == "LogicalNot":
                 return ["LogicalNot", sub(d(st.sampled_from(("BOOL", "BOOL", "INT"))))]
             if n in ("LogicalOr", "LogicalAnd"):
-                return [n, [sub(d(st.sampled_from(("BOOL", "BOOL", "BOOL", "INT"))))
+                kinds = ("BOOL",) if frag.logical_bool_only else (
+                    "BOOL", "BOOL", "BOOL", "INT")
+                return [n, [sub(d(st.sampled_from(kinds)))
                             for _ in range(_arity(d, frag))]]
             if n == "If":
                 return ["If", sub("BOOL"), sub("BOOL"), sub("BOOL")]
